@@ -278,4 +278,914 @@ theorem execT_many {S : ScanI} (hS : S.WF) {pat : List Atom} {st : St} {m e limi
       simp only at hs
       exact exec_eq_execT hS (by omega) (by omega)
 
+
+/-! ## (B) trimming
+
+The parser drops trailing `Skip / Rangext / Pop / Many` atoms.  Dropping trailing `Skip / Rangext / Pop`
+atoms changes neither the answer nor the save array (only the final `pc` / cursor, which `run` discards).
+(`Many` is different: it fails where the slice is empty, see `Thm/C11.lean`.) -/
+
+/-- the trimmed atoms that cannot fail -/
+def inert : Atom → Bool
+  | .skip _ | .rangext _ | .pop => true
+  | _ => false
+
+/-- running inside the trimmed tail: always `true`, save array untouched -/
+theorem exec_in_tail (S : ScanI) (base suf : List Atom) (hsuf : ∀ a ∈ suf, inert a = true) :
+    ∀ fuel st m e b st', exec S (base ++ suf) fuel st m e = .ok (b, st') → base.length ≤ st.pc →
+      b = true ∧ st'.save = st.save ∧ base.length ≤ st'.pc := by
+  intro fuel
+  induction fuel with
+  | zero => intro st m e b st' h; cases h
+  | succ fuel ih =>
+    intro st m e b st' h hpc
+    cases hp : (base ++ suf)[st.pc]? with
+    | none => rw [exec_none hp] at h; cases h; exact ⟨rfl, rfl, hpc⟩
+    | some a =>
+      have hmem : a ∈ suf := by
+        rw [List.getElem?_append_right hpc] at hp
+        exact List.mem_of_getElem? hp
+      have hin := hsuf a hmem
+      cases a with
+      | skip n =>
+        rw [exec_simple hp rfl] at h
+        simp only [step] at h
+        obtain ⟨h1, h2, h3⟩ := ih _ _ _ _ _ h (by simp only; omega)
+        exact ⟨h1, h2, by simpa using h3⟩
+      | rangext n =>
+        rw [exec_simple hp rfl] at h
+        simp only [step] at h
+        obtain ⟨h1, h2, h3⟩ := ih _ _ _ _ _ h (by simp only; omega)
+        exact ⟨h1, h2, by simpa using h3⟩
+      | pop =>
+        rw [exec_pop hp] at h
+        cases h
+        exact ⟨rfl, rfl, by simp only; omega⟩
+      | _ => simp [inert] at hin
+
+theorem peekByte_append_inert (suf : List Atom) (hsuf : ∀ a ∈ suf, inert a = true) :
+    ∀ l : List Atom, peekByte (l ++ suf) = peekByte l := by
+  intro l
+  induction l with
+  | nil =>
+    cases suf with
+    | nil => rfl
+    | cons a r =>
+      have := hsuf a (by simp)
+      cases a <;> simp_all [inert, peekByte]
+  | cons a l ih =>
+    cases a <;> simp_all [peekByte]
+
+/-- states of the two runs correspond: identical, or both beyond the kept atoms with the same save array -/
+def TrimRel (n : Nat) (s1 s2 : St) : Prop := s1 = s2 ∨ (s1.save = s2.save ∧ n ≤ s1.pc ∧ n ≤ s2.pc)
+
+def TrimRes (n : Nat) (r1 r2 : Bool × St) : Prop :=
+  r1.1 = r2.1 ∧ r1.2.save = r2.2.save ∧ (r1.1 = true → TrimRel n r1.2 r2.2)
+
+theorem manyLoop_trim {n : Nat} {mem : Bytes} {ex1 ex2 : St → Out (Bool × St)} {cursor pc off : Nat} {peek : Option Nat}
+    (hex : ∀ s1 s2 r1 r2, s1.save = s2.save → s1.pc = s2.pc → s1.cursor = s2.cursor →
+      ex1 s1 = .ok r1 → ex2 s2 = .ok r2 → TrimRes n r1 r2) :
+    ∀ k i st1 st2 r1 r2, st1.save = st2.save →
+      manyLoop mem ex1 cursor pc off peek k i st1 = .ok r1 → manyLoop mem ex2 cursor pc off peek k i st2 = .ok r2 →
+      TrimRes n r1 r2 := by
+  intro k
+  induction k with
+  | zero =>
+    intro i st1 st2 r1 r2 hsv h1 h2
+    simp only [manyLoop] at h1 h2
+    cases h1; cases h2
+    exact ⟨rfl, hsv, by simp⟩
+  | succ k ih =>
+    intro i st1 st2 r1 r2 hsv h1 h2
+    simp only [manyLoop] at h1 h2
+    split at h1
+    · next hpk =>
+      simp only [hpk, if_true] at h2
+      cases hx1 : ex1 { st1 with cursor := wadd32 cursor i, pc := pc } with
+      | ok v1 =>
+        cases hx2 : ex2 { st2 with cursor := wadd32 cursor i, pc := pc } with
+        | ok v2 =>
+          have hr := hex { st1 with cursor := wadd32 cursor i, pc := pc } { st2 with cursor := wadd32 cursor i, pc := pc } _ _ hsv rfl rfl hx1 hx2
+          obtain ⟨b1, t1⟩ := v1
+          obtain ⟨b2, t2⟩ := v2
+          rw [hx1] at h1
+          rw [hx2] at h2
+          obtain ⟨hb, hs, hrel⟩ := hr
+          simp only at hb hs hrel
+          subst hb
+          cases b1
+          · exact ih _ _ _ _ _ hs h1 h2
+          · cases h1; cases h2
+            exact ⟨rfl, hs, hrel⟩
+        | err x => rw [hx2] at h2; cases h2
+        | panic x => rw [hx2] at h2; cases h2
+        | ub x => rw [hx2] at h2; cases h2
+        | diverge => rw [hx2] at h2; cases h2
+      | err x => rw [hx1] at h1; cases h1
+      | panic x => rw [hx1] at h1; cases h1
+      | ub x => rw [hx1] at h1; cases h1
+      | diverge => rw [hx1] at h1; cases h1
+    · next hpk =>
+      simp only [hpk] at h2
+      exact ih _ _ _ _ _ hsv h1 h2
+
+theorem exec_trim (S : ScanI) (base suf : List Atom) (hsuf : ∀ a ∈ suf, inert a = true) :
+    ∀ f1 f2 s1 s2 m e r1 r2, TrimRel base.length s1 s2 →
+      exec S base f1 s1 m e = .ok r1 → exec S (base ++ suf) f2 s2 m e = .ok r2 →
+      TrimRes base.length r1 r2 := by
+  intro f1
+  induction f1 with
+  | zero => intro f2 s1 s2 m e r1 r2 _ h; cases h
+  | succ f1 ih =>
+    intro f2 s1 s2 m e r1 r2 hrel h1 h2
+    cases f2 with
+    | zero => cases h2
+    | succ f2 =>
+    by_cases hge : base.length ≤ s1.pc
+    · -- the first run is at its end
+      have hp1 : base[s1.pc]? = none := List.getElem?_eq_none_iff.2 hge
+      rw [exec_none hp1] at h1
+      cases h1
+      have hge2 : base.length ≤ s2.pc := by
+        rcases hrel with rfl | ⟨_, _, h⟩
+        · exact hge
+        · exact h
+      obtain ⟨b2, t2⟩ := r2
+      obtain ⟨hb, hs, hpc⟩ := exec_in_tail S base suf hsuf _ _ _ _ _ _ h2 hge2
+      have hsv : s1.save = s2.save := by
+        rcases hrel with rfl | ⟨h, _, _⟩
+        · rfl
+        · exact h
+      exact ⟨hb.symm, by simp only; rw [hs, hsv], fun _ => Or.inr ⟨by simp only; rw [hs, hsv], hge, hpc⟩⟩
+    · have hlt : s1.pc < base.length := by omega
+      have heq : s1 = s2 := by
+        rcases hrel with h | ⟨_, h, _⟩
+        · exact h
+        · omega
+      subst heq
+      have hp1 : base[s1.pc]? = some base[s1.pc] := List.getElem?_eq_getElem hlt
+      have hp2 : (base ++ suf)[s1.pc]? = some base[s1.pc] := by
+        rw [List.getElem?_append_left hlt]; exact hp1
+      generalize base[s1.pc] = a at hp1 hp2
+      cases a with
+      | push skip =>
+        rw [exec_push hp1] at h1
+        rw [exec_push hp2] at h2
+        cases hx1 : exec S base f1 { s1 with pc := s1.pc + 1 } 0xff 0 with
+        | ok v1 =>
+          cases hx2 : exec S (base ++ suf) f2 { s1 with pc := s1.pc + 1 } 0xff 0 with
+          | ok v2 =>
+            obtain ⟨hb, hs, hr⟩ := ih _ _ _ _ _ _ _ (Or.inl rfl) hx1 hx2
+            obtain ⟨b1, t1⟩ := v1
+            obtain ⟨b2, t2⟩ := v2
+            simp only at hb hs hr
+            subst hb
+            rw [hx1] at h1
+            rw [hx2] at h2
+            cases b1
+            · cases h1; cases h2
+              exact ⟨rfl, hs, by simp⟩
+            · simp only at h1 h2
+              refine ih _ _ _ _ _ _ _ ?_ h1 h2
+              rcases hr rfl with rfl | ⟨q1, q2, q3⟩
+              · exact Or.inl rfl
+              · exact Or.inr ⟨q1, q2, q3⟩
+          | err x => rw [hx2] at h2; cases h2
+          | panic x => rw [hx2] at h2; cases h2
+          | ub x => rw [hx2] at h2; cases h2
+          | diverge => rw [hx2] at h2; cases h2
+        | err x => rw [hx1] at h1; cases h1
+        | panic x => rw [hx1] at h1; cases h1
+        | ub x => rw [hx1] at h1; cases h1
+        | diverge => rw [hx1] at h1; cases h1
+      | pop =>
+        rw [exec_pop hp1] at h1
+        rw [exec_pop hp2] at h2
+        cases h1; cases h2
+        exact ⟨rfl, rfl, fun _ => Or.inl rfl⟩
+      | brk next =>
+        rw [exec_brk hp1] at h1
+        rw [exec_brk hp2] at h2
+        cases h1; cases h2
+        exact ⟨rfl, rfl, fun _ => Or.inl rfl⟩
+      | case next =>
+        rw [exec_case hp1] at h1
+        rw [exec_case hp2] at h2
+        cases hx1 : exec S base f1 { s1 with pc := s1.pc + 1 } 0xff 0 with
+        | ok v1 =>
+          cases hx2 : exec S (base ++ suf) f2 { s1 with pc := s1.pc + 1 } 0xff 0 with
+          | ok v2 =>
+            obtain ⟨hb, hs, hr⟩ := ih _ _ _ _ _ _ _ (Or.inl rfl) hx1 hx2
+            obtain ⟨b1, t1⟩ := v1
+            obtain ⟨b2, t2⟩ := v2
+            simp only at hb hs hr
+            subst hb
+            rw [hx1] at h1
+            rw [hx2] at h2
+            cases b1
+            · simp only at h1 h2
+              refine ih _ _ _ _ _ _ _ (Or.inl ?_) h1 h2
+              rw [hs]
+            · simp only at h1 h2
+              exact ih _ _ _ _ _ _ _ (hr rfl) h1 h2
+          | err x => rw [hx2] at h2; cases h2
+          | panic x => rw [hx2] at h2; cases h2
+          | ub x => rw [hx2] at h2; cases h2
+          | diverge => rw [hx2] at h2; cases h2
+        | err x => rw [hx1] at h1; cases h1
+        | panic x => rw [hx1] at h1; cases h1
+        | ub x => rw [hx1] at h1; cases h1
+        | diverge => rw [hx1] at h1; cases h1
+      | many limit =>
+        rw [exec_many hp1] at h1
+        rw [exec_many hp2] at h2
+        cases hs : S.slice s1.cursor with
+        | none =>
+          have hs' : S.slice ({ s1 with pc := s1.pc + 1 } : St).cursor = none := hs
+          rw [execMany_none hs'] at h1 h2
+          cases h1; cases h2
+          exact ⟨rfl, rfl, by simp⟩
+        | some ol =>
+          obtain ⟨off, len⟩ := ol
+          have hs' : S.slice ({ s1 with pc := s1.pc + 1 } : St).cursor = some (off, len) := hs
+          rw [execMany_some hs' (by simp only; omega)] at h1
+          rw [execMany_some hs' (by simp only [List.length_append]; omega)] at h2
+          have hpk : peekByte (List.drop ({ s1 with pc := s1.pc + 1 } : St).pc (base ++ suf)) =
+              peekByte (List.drop ({ s1 with pc := s1.pc + 1 } : St).pc base) := by
+            rw [List.drop_append_of_le_length (by simp only; omega)]
+            exact peekByte_append_inert suf hsuf _
+          rw [hpk] at h2
+          refine manyLoop_trim (n := base.length) ?_ _ _ _ _ _ _ rfl h1 h2
+          intro t1 t2 q1 q2 hsv hpc hcur hq1 hq2
+          have : t1 = t2 := by
+            cases t1; cases t2; simp_all
+          subst this
+          exact ih _ _ _ _ _ _ _ (Or.inl rfl) hq1 hq2
+      | _ =>
+        rw [exec_simple hp1 rfl] at h1
+        rw [exec_simple hp2 rfl] at h2
+        cases hst : step S _ { s1 with pc := s1.pc + 1 } m e with
+        | ok v =>
+          rw [hst] at h1 h2
+          cases v with
+          | none => cases h1; cases h2; exact ⟨rfl, rfl, by simp⟩
+          | some t =>
+            obtain ⟨st', m', e'⟩ := t
+            exact ih _ _ _ _ _ _ _ (Or.inl rfl) h1 h2
+        | err x => rw [hst] at h1; cases h1
+        | panic x => rw [hst] at h1; cases h1
+        | ub x => rw [hst] at h1; cases h1
+        | diverge => rw [hst] at h1; cases h1
+
+/-- **trimming inert trailing atoms does not change what `Scanner::exec` returns** -/
+theorem run_trim {S : ScanI} (hS : S.WF) (base suf : List Atom) (hsuf : ∀ a ∈ suf, inert a = true)
+    (c : Nat) (save : Array Nat) : run S base c save = run S (base ++ suf) c save := by
+  obtain ⟨⟨b1, t1⟩, hx1⟩ := exec_total hS base (fuelFor base) ⟨0, c, save⟩ 0xff 0 (by simp [fuelFor]) (by simp [fuelFor])
+  obtain ⟨⟨b2, t2⟩, hx2⟩ := exec_total hS (base ++ suf) (fuelFor (base ++ suf)) ⟨0, c, save⟩ 0xff 0
+    (by simp [fuelFor]) (by simp [fuelFor])
+  obtain ⟨hb, hs, _⟩ := exec_trim S base suf hsuf _ _ _ _ _ _ _ _ (Or.inl rfl) hx1 hx2
+  simp only at hb hs
+  simp only [run, hx1, hx2, hb, hs]
+
+
+/-! ## (C) facts about the reference semantics -/
+
+theorem addRva_eq_wadd32 (a b : Nat) : addRva a b = wadd32 a b := rfl
+
+mutual
+theorem slotsItem_le (k : Nat) : ∀ it : Item, k ≤ slotsItem k it
+  | .ws _ | .byte _ | .str _ | .any | .skip _ | .range _ _ | .jump _ | .aligned _ => by simp [slotsItem]
+  | .save | .readI _ | .readU _ | .zero => by simp [slotsItem]
+  | .group _ _ body => by simp only [slotsItem]; exact slotsItems_le k body
+  | .alt bodies => by simp only [slotsItem]; exact slotsAlts_le k bodies
+theorem slotsItems_le (k : Nat) : ∀ items : List Item, k ≤ slotsItems k items
+  | [] => by simp [slotsItems]
+  | it :: r => by
+    simp only [slotsItems]
+    exact Nat.le_trans (slotsItem_le k it) (slotsItems_le _ r)
+theorem slotsAlts_le (k : Nat) : ∀ bodies : List (List Item), k ≤ slotsAlts k bodies
+  | [] => by simp [slotsAlts]
+  | b :: bs => by
+    simp only [slotsAlts]
+    have := slotsItems_le k b
+    omega
+end
+
+theorem firstSome_some {α : Type} {f : Nat → Option α} : ∀ {n i : Nat} {x : α}, firstSome f n i = some x →
+    ∃ j, i ≤ j ∧ j < i + n ∧ f j = some x
+  | 0, _, _, h => by simp [firstSome] at h
+  | n + 1, i, x, h => by
+    simp only [firstSome] at h
+    split at h
+    · next y hy => cases h; exact ⟨i, Nat.le_refl _, by omega, hy⟩
+    · obtain ⟨j, h1, h2, h3⟩ := firstSome_some h
+      exact ⟨j, by omega, by omega, h3⟩
+
+/-- every slot a successful match writes lies in the range the syntax assigns to the sub-pattern -/
+def SlotsIn (w : Caps) (lo hi : Nat) : Prop := ∀ s v, (s, v) ∈ w → lo ≤ s ∧ s < hi
+
+theorem SlotsIn.nil (lo hi : Nat) : SlotsIn [] lo hi := by intro s v h; cases h
+
+theorem SlotsIn.mono {w : Caps} {lo hi lo' hi' : Nat} (h : SlotsIn w lo hi) (h1 : lo' ≤ lo) (h2 : hi ≤ hi') :
+    SlotsIn w lo' hi' := by
+  intro s v hm
+  have := h s v hm
+  omega
+
+theorem SlotsIn.append {w1 w2 : Caps} {lo hi : Nat} (h1 : SlotsIn w1 lo hi) (h2 : SlotsIn w2 lo hi) :
+    SlotsIn (w2 ++ w1) lo hi := by
+  intro s v hm
+  rcases List.mem_append.1 hm with h | h
+  · exact h2 s v h
+  · exact h1 s v h
+
+mutual
+theorem semItem_slots (S : ScanI) (k : Nat) : ∀ (it : Item) (c c' : Nat) (w : Caps),
+    semItem S k it c = some (c', w) → SlotsIn w k (slotsItem k it)
+  | .ws _, c, c', w, h => by simp only [semItem] at h; cases h; exact SlotsIn.nil _ _
+  | .byte _, c, c', w, h => by
+    simp only [semItem, Option.map_eq_some_iff] at h
+    obtain ⟨_, _, h⟩ := h; cases h; exact SlotsIn.nil _ _
+  | .str _, c, c', w, h => by
+    simp only [semItem, Option.map_eq_some_iff] at h
+    obtain ⟨_, _, h⟩ := h; cases h; exact SlotsIn.nil _ _
+  | .any, c, c', w, h => by simp only [semItem] at h; cases h; exact SlotsIn.nil _ _
+  | .skip _, c, c', w, h => by simp only [semItem] at h; cases h; exact SlotsIn.nil _ _
+  | .range _ _, c, c', w, h => by simp [semItem] at h
+  | .jump _, c, c', w, h => by
+    simp only [semItem, Option.map_eq_some_iff] at h
+    obtain ⟨_, _, h⟩ := h; cases h; exact SlotsIn.nil _ _
+  | .save, c, c', w, h => by
+    simp only [semItem] at h; cases h
+    intro s v hm; simp at hm; simp [slotsItem, hm.1]
+  | .aligned _, c, c', w, h => by
+    simp only [semItem] at h
+    split at h
+    · cases h
+    · cases h; exact SlotsIn.nil _ _
+  | .readI _, c, c', w, h => by
+    simp only [semItem, Option.map_eq_some_iff] at h
+    obtain ⟨_, _, h⟩ := h; cases h
+    intro s v hm; simp at hm; simp [slotsItem, hm.1]
+  | .readU _, c, c', w, h => by
+    simp only [semItem, Option.map_eq_some_iff] at h
+    obtain ⟨_, _, h⟩ := h; cases h
+    intro s v hm; simp at hm; simp [slotsItem, hm.1]
+  | .zero, c, c', w, h => by
+    simp only [semItem] at h; cases h
+    intro s v hm; simp at hm; simp [slotsItem, hm.1]
+  | .group j _ body, c, c', w, h => by
+    simp only [semItem] at h
+    split at h
+    · cases h
+    · next t _ =>
+      split at h
+      · cases h
+      · next cb wb hb =>
+        cases h
+        simp only [slotsItem]
+        exact sem_slots S k body t cb w hb
+  | .alt bodies, c, c', w, h => by
+    simp only [semItem] at h
+    simp only [slotsItem]
+    exact semAlts_slots S k bodies c c' w h
+theorem sem_slots (S : ScanI) (k : Nat) : ∀ (items : List Item) (c c' : Nat) (w : Caps),
+    sem S k items c = some (c', w) → SlotsIn w k (slotsItems k items)
+  | [], c, c', w, h => by simp only [sem] at h; cases h; exact SlotsIn.nil _ _
+  | it :: r, c, c', w, h => by
+    by_cases hr : ∃ a b, it = .range a b
+    · obtain ⟨a, b, rfl⟩ := hr
+      simp only [sem] at h
+      split at h
+      · cases h
+      · obtain ⟨j, _, _, hj⟩ := firstSome_some h
+        simp only [slotsItems, slotsItem]
+        exact sem_slots S k r _ c' w hj
+    · rw [sem.eq_3 _ _ _ _ _ (fun a b hab => hr ⟨a, b, hab⟩)] at h
+      split at h
+      · cases h
+      · next c1 w1 h1 =>
+        split at h
+        · cases h
+        · next c2 w2 h2 =>
+          cases h
+          simp only [slotsItems]
+          have q1 := semItem_slots S k it c c1 w1 h1
+          have q2 := sem_slots S (slotsItem k it) r c1 c' w2 h2
+          exact SlotsIn.append (q1.mono (Nat.le_refl _) (slotsItems_le _ r)) (q2.mono (slotsItem_le k it) (Nat.le_refl _))
+theorem semAlts_slots (S : ScanI) (k : Nat) : ∀ (bodies : List (List Item)) (c c' : Nat) (w : Caps),
+    semAlts S k bodies c = some (c', w) → SlotsIn w k (slotsAlts k bodies)
+  | [], c, c', w, h => by simp [semAlts] at h
+  | b :: bs, c, c', w, h => by
+    simp only [semAlts] at h
+    simp only [slotsAlts]
+    split at h
+    · next r hr =>
+      cases h
+      exact (sem_slots S k b c c' w hr).mono (Nat.le_refl _) (Nat.le_max_left _ _)
+    · exact (semAlts_slots S k bs c c' w h).mono (Nat.le_refl _) (Nat.le_max_right _ _)
+end
+
+
+/-! ## (D) code positions, save arrays, the peek shortcut -/
+
+/-- `slice` and one-byte `read`s see the same bytes (what makes `exec_many`'s `memchr` shortcut sound) -/
+def Coherent (S : ScanI) : Prop :=
+  ∀ c off len i, S.slice c = some (off, len) → i < len → S.read 1 (wadd32 c i) = some (byteAt S.mem (off + i))
+
+/-- `sv'` has the size of `sv` and the same contents below slot `k` -/
+def SaveOK (k : Nat) (sv sv' : Array Nat) : Prop := sv'.size = sv.size ∧ ∀ s, s < k → sv'[s]? = sv[s]?
+
+theorem SaveOK.refl (k : Nat) (sv : Array Nat) : SaveOK k sv sv := ⟨rfl, fun _ _ => rfl⟩
+
+theorem SaveOK.trans {k k' : Nat} {a b c : Array Nat} (h1 : SaveOK k a b) (h2 : SaveOK k' b c) (hk : k ≤ k') :
+    SaveOK k a c :=
+  ⟨h2.1.trans h1.1, fun s hs => (h2.2 s (by omega)).trans (h1.2 s hs)⟩
+
+theorem SaveOK.mono {k k' : Nat} {a b : Array Nat} (h : SaveOK k' a b) (hk : k ≤ k') : SaveOK k a b :=
+  ⟨h.1, fun s hs => h.2 s (by omega)⟩
+
+theorem SaveOK.set (k : Nat) (sv : Array Nat) (v : Nat) : SaveOK k sv (saveSet sv k v) := by
+  refine ⟨by simp [saveSet], ?_⟩
+  intro s hs
+  simp only [saveSet]
+  rw [Array.getElem?_setIfInBounds_ne (by omega)]
+
+/-- the save array holds every capture of `w` (as far as it is long enough) -/
+def Writes (w : Caps) (sv : Array Nat) : Prop := ∀ s v, (s, v) ∈ w → s < sv.size → sv[s]? = some v
+
+theorem Writes.nil (sv : Array Nat) : Writes [] sv := by intro s v h; cases h
+
+theorem Writes.single (sv : Array Nat) (k v : Nat) : Writes [(k, v)] (saveSet sv k v) := by
+  intro s v' hm hs
+  simp only [List.mem_singleton, Prod.mk.injEq] at hm
+  obtain ⟨rfl, rfl⟩ := hm
+  simp only [saveSet] at hs ⊢
+  simp only [Array.size_setIfInBounds] at hs
+  simp [hs]
+
+theorem Writes.append {w1 w2 : Caps} {k k1 : Nat} {sv1 sv2 : Array Nat} (h1 : Writes w1 sv1) (hs1 : SlotsIn w1 k k1)
+    (hok : SaveOK k1 sv1 sv2) (h2 : Writes w2 sv2) : Writes (w2 ++ w1) sv2 := by
+  intro s v hm hs
+  rcases List.mem_append.1 hm with h | h
+  · exact h2 s v h hs
+  · have := hs1 s v h
+    rw [hok.2 s this.2]
+    exact h1 s v h (by rw [← hok.1]; exact hs)
+
+/-- `code` sits in `U` at position `pc` -/
+def At (U : List Atom) (pc : Nat) (code : List Atom) : Prop := ∀ i a, code[i]? = some a → U[pc + i]? = some a
+
+theorem At.nil (U : List Atom) (pc : Nat) : At U pc [] := by intro i a h; simp at h
+
+theorem At.head {U : List Atom} {pc : Nat} {a : Atom} {r : List Atom} (h : At U pc (a :: r)) : U[pc]? = some a := by
+  simpa using h 0 a (by simp)
+
+theorem At.tail {U : List Atom} {pc : Nat} {a : Atom} {r : List Atom} (h : At U pc (a :: r)) : At U (pc + 1) r := by
+  intro i b hb
+  have := h (i + 1) b (by simpa using hb)
+  simpa [Nat.add_assoc, Nat.add_comm 1 i] using this
+
+theorem At.left {U : List Atom} {pc : Nat} {x y : List Atom} (h : At U pc (x ++ y)) : At U pc x := by
+  intro i a ha
+  have hi : i < x.length := (List.getElem?_eq_some_iff.1 ha).1
+  exact h i a (by rw [List.getElem?_append_left hi]; exact ha)
+
+theorem At.right {U : List Atom} {pc : Nat} {x y : List Atom} (h : At U pc (x ++ y)) : At U (pc + x.length) y := by
+  intro i a ha
+  have := h (x.length + i) a (by rw [List.getElem?_append_right (by omega)]; simpa using ha)
+  simpa [Nat.add_assoc] using this
+
+theorem At.mem {U : List Atom} {pc : Nat} {code : List Atom} (h : At U pc code) {a : Atom} (ha : a ∈ code) : a ∈ U := by
+  obtain ⟨i, hi⟩ := List.mem_iff_getElem?.1 ha
+  exact List.mem_of_getElem? (h i a hi)
+
+theorem wadd32_lt (a b : Nat) : wadd32 a b < 4294967296 := by unfold wadd32; omega
+
+theorem wadd32_wadd32 (a b c : Nat) : wadd32 (wadd32 a b) c = wadd32 a (b + c) := by unfold wadd32; omega
+
+theorem wadd32_zero {a : Nat} (h : a < 4294967296) : wadd32 a 0 = a := by unfold wadd32; omega
+
+theorem and255_eq {v : Nat} (h : v < 256) : v &&& 255 = v := by rw [and255]; omega
+
+section Run
+variable {S : ScanI} (hS : S.WF) {U : List Atom}
+include hS
+
+/-- the `memchr` shortcut: when the first `Byte` behind the `Save`s at `pc` differs from the byte under
+the cursor, running from `pc` fails -/
+theorem peek_fail (hB : ∀ b, Atom.byte b ∈ U → b < 256) {b c : Nat} (hne : S.read 1 c ≠ some b) :
+    ∀ (l : List Atom) (pc : Nat) (sv : Array Nat), U.drop pc = l → peekByte l = some b →
+      (execT S U ⟨pc, c, sv⟩ 0xff 0).1 = false := by
+  intro l
+  induction l with
+  | nil => intro pc sv _ h; simp [peekByte] at h
+  | cons a l ih =>
+    intro pc sv hd hpk
+    have hlt : pc < U.length := by
+      apply Nat.lt_of_not_le
+      intro hge
+      rw [List.drop_eq_nil_of_le hge] at hd
+      cases hd
+    have hp : U[pc]? = some a := by
+      rw [List.drop_eq_getElem_cons hlt] at hd
+      rw [List.getElem?_eq_getElem hlt]
+      congr 1
+      exact (List.cons.inj hd).1
+    have hd' : U.drop (pc + 1) = l := by
+      rw [List.drop_eq_getElem_cons hlt] at hd
+      exact (List.cons.inj hd).2
+    cases a with
+    | byte b0 =>
+      simp only [peekByte, Option.some.injEq] at hpk
+      subst hpk
+      have hb0 : b0 < 256 := hB b0 (List.mem_of_getElem? hp)
+      have hst : step S (.byte b0) { (⟨pc, c, sv⟩ : St) with pc := pc + 1 } 0xff 0 = .ok none := by
+        simp only [step]
+        cases hr : S.read 1 c with
+        | none => rfl
+        | some v =>
+          have hv := (hS.read1 _ _ hr).2
+          have : v ≠ b0 := by intro h; apply hne; rw [hr, h]
+          simp only [and255_eq hv, and255_eq hb0, this, if_false]
+      rw [execT_step_none hS hp rfl hst]
+    | save s =>
+      simp only [peekByte] at hpk
+      have hst : step S (.save s) { (⟨pc, c, sv⟩ : St) with pc := pc + 1 } 0xff 0 =
+          .ok (some (⟨pc + 1, c, saveSet sv s c⟩, 0xff, 0)) := rfl
+      rw [execT_step_some hS hp rfl hst]
+      exact ih _ _ hd' hpk
+    | _ => simp [peekByte] at hpk
+
+/-- running from `pc` returns `true` at `pcR` without touching cursor or save array: `pc` holds the
+`Pop` / `Break` that ends the frame, or lies beyond the pattern -/
+def IsTerm (S : ScanI) (U : List Atom) (pc pcR : Nat) : Prop :=
+  ∀ c sv, execT S U ⟨pc, c, sv⟩ 0xff 0 = (true, ⟨pcR, c, sv⟩)
+
+theorem IsTerm.pop (h : U[pc]? = some .pop) : IsTerm S U pc (pc + 1) := by
+  intro c sv; rw [execT_pop hS h]
+
+theorem IsTerm.brk {m : Nat} (h : U[pc]? = some (.brk m)) : IsTerm S U pc (pc + 1 + m) := by
+  intro c sv; rw [execT_brk hS h]
+
+theorem IsTerm.end_ (h : U.length ≤ pc) : IsTerm S U pc pc := by
+  intro c sv; rw [execT_none hS (List.getElem?_eq_none_iff.2 h)]
+
+/-- cursor behind the pending `Skip(n)` executed with `ext_range = E` -/
+def cur (pend : Option Nat) (E c : Nat) : Nat :=
+  match pend with
+  | none => c
+  | some n => wadd32 c (E + n)
+
+def PendGood (pend : Option Nat) (E : Nat) : Prop :=
+  match pend with
+  | none => E = 0
+  | some n => E + n ≠ 0
+
+omit hS in
+theorem cur_lt {pend : Option Nat} {E c : Nat} (hc : c < 4294967296) : cur pend E c < 4294967296 := by
+  cases pend with
+  | none => exact hc
+  | some n => exact wadd32_lt _ _
+
+/-- executing the pending skip -/
+theorem run_flush {pend : Option Nat} {E pc c : Nat} {sv : Array Nat} (hA : At U pc (flush pend))
+    (hg : PendGood pend E) :
+    execT S U ⟨pc, c, sv⟩ 0xff E = execT S U ⟨pc + (flush pend).length, cur pend E c, sv⟩ 0xff 0 := by
+  cases pend with
+  | none => simp only [PendGood] at hg; subst hg; rfl
+  | some n =>
+    simp only [PendGood] at hg
+    have hp : U[pc]? = some (.skip n) := hA.head
+    have hst : step S (.skip n) { (⟨pc, c, sv⟩ : St) with pc := pc + 1 } 0xff E =
+        .ok (some (⟨pc + 1, wadd32 c (E + n), sv⟩, 0xff, 0)) := by
+      simp only [step, skipAmt, hg, if_false]
+    rw [execT_step_some hS hp rfl hst]
+    rfl
+
+/-- **what compiler correctness asserts** about the `len` atoms at `pc`, run at cursor `c` with save
+array `sv` and `ext_range = E`, `res` being the documented result: on a match the interpreter arrives
+behind the atoms at the documented cursor, has written the documented captures and left the slots
+below `k` alone; on a mismatch it returns `false` and has left the slots below `k` alone. -/
+def Runs (S : ScanI) (U : List Atom) (k pc len E c : Nat) (sv : Array Nat) (res : Option (Nat × Caps)) : Prop :=
+  match res with
+  | some (c', w) => ∃ sv', execT S U ⟨pc, c, sv⟩ 0xff E = execT S U ⟨pc + len, c', sv'⟩ 0xff 0 ∧
+      SaveOK k sv sv' ∧ Writes w sv' ∧ c' < 4294967296
+  | none => ∃ st', execT S U ⟨pc, c, sv⟩ 0xff E = (false, st') ∧ SaveOK k sv st'.save
+
+omit hS in
+/-- sequential composition -/
+theorem Runs.seq {k k1 pc len1 len2 E c : Nat} {sv : Array Nat} {c1 : Nat} {w1 : Caps} {res2 : Option (Nat × Caps)}
+    (h1 : Runs S U k pc len1 E c sv (some (c1, w1))) (hs1 : SlotsIn w1 k k1) (hk : k ≤ k1)
+    (h2 : ∀ sv1, SaveOK k sv sv1 → Runs S U k1 (pc + len1) len2 0 c1 sv1 res2) :
+    Runs S U k pc (len1 + len2) E c sv
+      (match res2 with
+       | none => none
+       | some (c2, w2) => some (c2, w2 ++ w1)) := by
+  obtain ⟨sv1, he1, ho1, hw1, _⟩ := h1
+  have h2 := h2 sv1 ho1
+  cases res2 with
+  | none =>
+    obtain ⟨st', he2, ho2⟩ := h2
+    exact ⟨st', he1.trans he2, ho1.trans ho2 hk⟩
+  | some r =>
+    obtain ⟨c2, w2⟩ := r
+    obtain ⟨sv2, he2, ho2, hw2, hc2⟩ := h2
+    refine ⟨sv2, ?_, ho1.trans ho2 hk, Writes.append hw1 hs1 ho2 hw2, hc2⟩
+    rw [he1, he2, Nat.add_assoc]
+
+omit hS in
+/-- a failing first part -/
+theorem Runs.fail_left {k pc len1 len2 E c : Nat} {sv : Array Nat} (h1 : Runs S U k pc len1 E c sv none) :
+    Runs S U k pc len2 E c sv none := h1
+
+/-- one non-control atom that succeeds -/
+theorem Runs.step_some {k pc E c : Nat} {sv : Array Nat} {a : Atom} {c' : Nat} {sv' : Array Nat} {w : Caps}
+    (hp : U[pc]? = some a) (ha : isCtl a = false)
+    (hst : step S a ⟨pc + 1, c, sv⟩ 0xff E = .ok (some (⟨pc + 1, c', sv'⟩, 0xff, 0)))
+    (hok : SaveOK k sv sv') (hw : Writes w sv') (hc : c' < 4294967296) :
+    Runs S U k pc 1 E c sv (some (c', w)) :=
+  ⟨sv', execT_step_some hS (st := ⟨pc, c, sv⟩) hp ha hst, hok, hw, hc⟩
+
+/-- one non-control atom that fails -/
+theorem Runs.step_none {k pc E c : Nat} {sv : Array Nat} {a : Atom}
+    (hp : U[pc]? = some a) (ha : isCtl a = false)
+    (hst : step S a ⟨pc + 1, c, sv⟩ 0xff E = .ok none) :
+    Runs S U k pc 1 E c sv none :=
+  ⟨_, execT_step_none hS (st := ⟨pc, c, sv⟩) hp ha hst, SaveOK.refl _ _⟩
+
+end Run
+
+
+/-! ## (E) compiler correctness -/
+
+section Main
+variable {S : ScanI} (hS : S.WF) {U : List Atom}
+include hS
+
+omit hS in
+/-- move the start of a `Runs` statement along an execution step -/
+theorem Runs.of_eq {k pc len E c : Nat} {sv : Array Nat} {pc' len' E' c' : Nat} {res : Option (Nat × Caps)}
+    (he : execT S U ⟨pc, c, sv⟩ 0xff E = execT S U ⟨pc', c', sv⟩ 0xff E') (hl : pc' + len' = pc + len)
+    (h : Runs S U k pc' len' E' c' sv res) : Runs S U k pc len E c sv res := by
+  cases res with
+  | none =>
+    obtain ⟨st', h1, h2⟩ := h
+    exact ⟨st', he.trans h1, h2⟩
+  | some r =>
+    obtain ⟨c2, w⟩ := r
+    obtain ⟨sv', h1, h2, h3, h4⟩ := h
+    exact ⟨sv', by rw [he, h1, hl], h2, h3, h4⟩
+
+/-- put the pending skip in front -/
+theorem Runs.flush {k pc len E c : Nat} {sv : Array Nat} {pend : Option Nat} {res : Option (Nat × Caps)}
+    (hA : At U pc (flush pend)) (hg : PendGood pend E)
+    (h : Runs S U k (pc + (flush pend).length) len 0 (cur pend E c) sv res) :
+    Runs S U k pc ((flush pend).length + len) E c sv res :=
+  Runs.of_eq (run_flush hS hA hg) (by omega) h
+
+omit hS in
+theorem res_append_nil (res : Option (Nat × Caps)) :
+    (match res with
+     | none => none
+     | some (c2, w2) => some (c2, w2 ++ ([] : Caps))) = res := by
+  cases res with
+  | none => rfl
+  | some r => obtain ⟨c2, w2⟩ := r; simp
+
+/-- a run of exact bytes -/
+theorem run_bytes (k : Nat) : ∀ (bs : List Nat) (pc c : Nat) (sv : Array Nat), At U pc (bs.map Atom.byte) →
+    (∀ b ∈ bs, b < 256) → c < 4294967296 →
+    Runs S U k pc bs.length 0 c sv ((matchBytes S bs c).map (·, []))
+  | [], pc, c, sv, _, _, hc => ⟨sv, rfl, SaveOK.refl _ _, Writes.nil _, hc⟩
+  | b :: bs, pc, c, sv, hA, hb, hc => by
+    have hp : U[pc]? = some (.byte b) := At.head hA
+    have hb0 : b < 256 := hb b (by simp)
+    simp only [matchBytes]
+    cases hr : S.read 1 c with
+    | none =>
+      simp only [reduceCtorEq, if_false, Option.map_none]
+      exact Runs.step_none hS hp rfl (by simp only [step, hr])
+    | some v =>
+      obtain ⟨hv1, hv2⟩ := hS.read1 _ _ hr
+      by_cases hvb : v = b
+      · subst hvb
+        simp only [if_true]
+        have hst : step S (.byte v) ⟨pc + 1, c, sv⟩ 0xff 0 = .ok (some (⟨pc + 1, c + 1, sv⟩, 0xff, 0)) := by
+          simp only [step, hr, hv1, if_true]
+        have ih := run_bytes k bs (pc + 1) (c + 1) sv (At.tail hA) (fun x hx => hb x (by simp [hx])) hv1
+        exact Runs.of_eq (execT_step_some hS (st := ⟨pc, c, sv⟩) hp rfl hst) (by simp only [List.length_cons]; omega) ih
+      · have : ¬ (some v = some b) := by simpa using hvb
+        simp only [this, if_false, Option.map_none]
+        refine Runs.step_none hS hp rfl ?_
+        simp only [step, hr, and255_eq hv2, and255_eq hb0, hvb, if_false]
+
+/-- the items that compile to one non-control atom -/
+def simpleAtom (k : Nat) : Item → Option Atom
+  | .byte b => some (.byte b)
+  | .jump j => some j.atom
+  | .save => some (.save k)
+  | .aligned n => some (.aligned n)
+  | .readI w => some (readAtom true w k)
+  | .readU w => some (readAtom false w k)
+  | .zero => some (.zero k)
+  | _ => none
+
+omit hS in
+theorem comp_simple {k : Nat} {it : Item} {a : Atom} (h : simpleAtom k it = some a) (pend : Option Nat) (r : List Item) :
+    comp k pend (it :: r) = flush pend ++ [a] ++ comp (slotsItem k it) none r := by
+  cases it <;> simp only [simpleAtom, Option.some.injEq, reduceCtorEq] at h <;> subst h <;>
+    simp [comp, slotsItem]
+
+omit hS in
+theorem sext8_eq {v : Nat} (h : v < 256) : sext8 v = signExtend 1 v := by
+  unfold sext8 signExtend; simp only [if_true]; split <;> omega
+
+omit hS in
+theorem sext16_eq {v : Nat} (h : v < 65536) : sext16 v = signExtend 2 v := by
+  unfold sext16 signExtend; simp only [show (2 : Nat) ≠ 1 by decide, if_false, if_true]; split <;> omega
+
+theorem runs_simple {k d : Nat} {it : Item} {a : Atom} (h : simpleAtom k it = some a) (hwf : wfItem d it = true)
+    {pc c : Nat} {sv : Array Nat} (hp : U[pc]? = some a) (hc : c < 4294967296) :
+    Runs S U k pc 1 0 c sv (semItem S k it c) := by
+  cases it <;> simp only [simpleAtom, Option.some.injEq, reduceCtorEq] at h <;> subst h
+  case byte b =>
+    have := run_bytes hS (U := U) k [b] pc c sv (by intro i a ha; cases i <;> simp_all) (by simpa [wfItem] using hwf) hc
+    simpa [semItem] using this
+  case jump j =>
+    simp only [semItem]
+    cases j with
+    | j1 =>
+      simp only [Jump.target, Jump.atom] at hp ⊢
+      cases hr : S.read 1 c with
+      | none => exact Runs.step_none hS hp rfl (by simp only [step, hr] <;> rfl)
+      | some v =>
+        have hv := (hS.read1 _ _ hr).2
+        simp only [Option.map_some, ← sext8_eq hv]
+        refine Runs.step_some hS hp rfl (by simp only [step, hr] <;> rfl) (SaveOK.refl _ _) (Writes.nil _) ?_
+        simp only [addRva_eq_wadd32]; exact wadd32_lt _ _
+    | j4 =>
+      simp only [Jump.target, Jump.atom] at hp ⊢
+      cases hr : S.read 4 c with
+      | none => exact Runs.step_none hS hp rfl (by simp only [step, hr] <;> rfl)
+      | some v =>
+        refine Runs.step_some hS hp rfl (by simp only [step, hr] <;> rfl) (SaveOK.refl _ _) (Writes.nil _) ?_
+        simp only [addRva_eq_wadd32]; exact wadd32_lt _ _
+    | ptr =>
+      simp only [Jump.target, Jump.atom] at hp ⊢
+      cases hr : (S.read S.fmt.ptrSize c).bind S.pointer with
+      | none => exact Runs.step_none hS hp rfl (by simp only [step, hr] <;> rfl)
+      | some v =>
+        obtain ⟨va, _, hv⟩ := Option.bind_eq_some_iff.1 hr
+        exact Runs.step_some hS hp rfl (by simp only [step, hr] <;> rfl) (SaveOK.refl _ _) (Writes.nil _) (hS.pointer_lt _ _ hv)
+  case save =>
+    simp only [semItem]
+    exact Runs.step_some hS hp rfl (by simp only [step]) (SaveOK.set _ _ _) (Writes.single _ _ _) hc
+  case aligned n =>
+    simp only [semItem]
+    split
+    · next hal => exact Runs.step_none hS hp rfl (by simp only [step]; rw [if_pos hal])
+    · next hal => exact Runs.step_some hS hp rfl (by simp only [step]; rw [if_neg hal]) (SaveOK.refl _ _) (Writes.nil _) hc
+  case readI w =>
+    simp only [semItem]
+    have hw : w = 1 ∨ w = 2 ∨ w = 4 := by simp [wfItem] at hwf; omega
+    rcases hw with rfl | rfl | rfl <;> simp only [readAtom] at hp
+    · cases hr : S.read 1 c with
+      | none => exact Runs.step_none hS hp rfl (by simp only [step, hr] <;> rfl)
+      | some v =>
+        have hv := hS.read_lt _ _ _ hr
+        refine Runs.step_some hS hp rfl (by simp only [step, hr] <;> rfl) (SaveOK.set _ _ _) ?_ (wadd32_lt _ _)
+        rw [← sext8_eq (by omega)]; exact Writes.single _ _ _
+    · cases hr : S.read 2 c with
+      | none => exact Runs.step_none hS hp rfl (by simp only [step, hr] <;> rfl)
+      | some v =>
+        have hv := hS.read_lt _ _ _ hr
+        refine Runs.step_some hS hp rfl (by simp only [step, hr] <;> rfl) (SaveOK.set _ _ _) ?_ (wadd32_lt _ _)
+        rw [← sext16_eq (by omega)]; exact Writes.single _ _ _
+    · cases hr : S.read 4 c with
+      | none => exact Runs.step_none hS hp rfl (by simp only [step, hr] <;> rfl)
+      | some v =>
+        refine Runs.step_some hS hp rfl (by simp only [step, hr] <;> rfl) (SaveOK.set _ _ _) ?_ (wadd32_lt _ _)
+        have : signExtend 4 v = v := by simp [signExtend]
+        rw [this]; exact Writes.single _ _ _
+  case readU w =>
+    simp only [semItem]
+    have hw : w = 1 ∨ w = 2 ∨ w = 4 := by simp [wfItem] at hwf; omega
+    rcases hw with rfl | rfl | rfl <;> simp only [readAtom] at hp
+    · cases hr : S.read 1 c with
+      | none => exact Runs.step_none hS hp rfl (by simp only [step, hr] <;> rfl)
+      | some v => exact Runs.step_some hS hp rfl (by simp only [step, hr] <;> rfl) (SaveOK.set _ _ _) (Writes.single _ _ _) (wadd32_lt _ _)
+    · cases hr : S.read 2 c with
+      | none => exact Runs.step_none hS hp rfl (by simp only [step, hr] <;> rfl)
+      | some v => exact Runs.step_some hS hp rfl (by simp only [step, hr] <;> rfl) (SaveOK.set _ _ _) (Writes.single _ _ _) (wadd32_lt _ _)
+    · cases hr : S.read 4 c with
+      | none => exact Runs.step_none hS hp rfl (by simp only [step, hr] <;> rfl)
+      | some v => exact Runs.step_some hS hp rfl (by simp only [step, hr] <;> rfl) (SaveOK.set _ _ _) (Writes.single _ _ _) (wadd32_lt _ _)
+  case zero =>
+    simp only [semItem]
+    exact Runs.step_some hS hp rfl (by simp only [step]) (SaveOK.set _ _ _) (Writes.single _ _ _) hc
+
+end Main
+
+
+section Main2
+variable {S : ScanI} (hS : S.WF) {U : List Atom}
+include hS
+
+/-- an item whose code is `flush pend ++ code`, followed by the rest of the sequence -/
+theorem runs_cons {it : Item} {r : List Item} {k : Nat} {pend : Option Nat} {E pc c : Nat} {sv : Array Nat}
+    {code : List Atom} (hnr : ∀ a b, it ≠ .range a b)
+    (hcomp : comp k pend (it :: r) = flush pend ++ code ++ comp (slotsItem k it) none r)
+    (hA : At U pc (comp k pend (it :: r))) (hg : PendGood pend E)
+    (hit : Runs S U k (pc + (flush pend).length) code.length 0 (cur pend E c) sv (semItem S k it (cur pend E c)))
+    (hr : ∀ c1 sv1, c1 < 4294967296 →
+      Runs S U (slotsItem k it) (pc + (flush pend).length + code.length) (comp (slotsItem k it) none r).length 0 c1 sv1
+        (sem S (slotsItem k it) r c1)) :
+    Runs S U k pc (comp k pend (it :: r)).length E c sv (sem S k (it :: r) (cur pend E c)) := by
+  rw [sem.eq_3 _ _ _ _ _ (fun a b hab => hnr a b hab)]
+  rw [hcomp] at hA ⊢
+  have hlen : (flush pend ++ code ++ comp (slotsItem k it) none r).length =
+      (flush pend).length + (code.length + (comp (slotsItem k it) none r).length) := by
+    simp only [List.length_append]; omega
+  rw [hlen]
+  apply Runs.flush hS hA.left.left hg
+  cases hsi : semItem S k it (cur pend E c) with
+  | none => rw [hsi] at hit; exact hit
+  | some r1 =>
+    obtain ⟨c1, w1⟩ := r1
+    rw [hsi] at hit
+    have hc1 : c1 < 4294967296 := by obtain ⟨_, _, _, _, h⟩ := hit; exact h
+    exact Runs.seq hit (semItem_slots S k it _ _ _ hsi) (slotsItem_le k it) (fun sv1 _ => hr c1 sv1 hc1)
+
+omit hS in
+theorem Jump.target_lt (hS : S.WF) {j : Jump} {c t : Nat} (h : j.target S c = some t) : t < 4294967296 := by
+  cases j with
+  | j1 =>
+    simp only [Jump.target, Option.map_eq_some_iff] at h
+    obtain ⟨v, _, rfl⟩ := h; exact wadd32_lt _ _
+  | j4 =>
+    simp only [Jump.target, Option.map_eq_some_iff] at h
+    obtain ⟨v, _, rfl⟩ := h; exact wadd32_lt _ _
+  | ptr =>
+    simp only [Jump.target] at h
+    obtain ⟨va, _, hv⟩ := Option.bind_eq_some_iff.1 h
+    exact hS.pointer_lt _ _ hv
+
+omit hS in
+theorem skipAmt_push (j : Jump) : skipAmt S 0 j.push = j.width S := by
+  cases j <;> simp [skipAmt, Jump.push, Jump.width]
+
+/-- `j { body }` : `Push, jump, body…, Pop` -/
+theorem group_runs {j : Jump} {gap : List UInt8} {body : List Item} {k d pc c : Nat} {sv : Array Nat}
+    (hA : At U pc (.push j.push :: j.atom :: (comp k none body ++ [.pop]))) (hc : c < 4294967296)
+    (hbody : ∀ t sv1, t < 4294967296 →
+      Runs S U k (pc + 2) (comp k none body).length 0 t sv1 (sem S k body t)) :
+    Runs S U k pc (.push j.push :: j.atom :: (comp k none body ++ [.pop])).length 0 c sv
+      (semItem S k (.group j gap body) c) := by
+  have hpush : U[pc]? = some (.push j.push) := hA.head
+  have hjmp : U[pc + 1]? = some j.atom := hA.tail.head
+  have hpop : U[pc + 2 + (comp k none body).length]? = some .pop := by
+    have := hA.tail.tail.right.head
+    simpa [Nat.add_assoc] using this
+  have hterm := IsTerm.pop hS hpop
+  have hjs := runs_simple hS (k := k) (d := d) (it := .jump j) (a := j.atom) rfl rfl (sv := sv) hjmp hc
+  simp only [semItem] at hjs ⊢
+  have hlen : (Atom.push j.push :: j.atom :: (comp k none body ++ [Atom.pop])).length =
+      2 + (comp k none body).length + 1 := by simp; omega
+  rw [hlen]
+  rw [show execT S U ⟨pc, c, sv⟩ 0xff 0 = _ from execT_push hS (st := ⟨pc, c, sv⟩) hpush] at *
+  cases htg : j.target S c with
+  | none =>
+    rw [htg] at hjs
+    obtain ⟨st', he, hok⟩ := hjs
+    refine ⟨st', ?_, hok⟩
+    rw [execT_push hS (st := ⟨pc, c, sv⟩) hpush]
+    simp only
+    rw [he]
+  | some t =>
+    rw [htg] at hjs
+    obtain ⟨sv0, he, hok0, _, ht⟩ := hjs
+    simp only [Option.map_some] at he
+    have hb := hbody t sv0 ht
+    cases hsb : sem S k body t with
+    | none =>
+      rw [hsb] at hb
+      obtain ⟨st', he2, hok2⟩ := hb
+      refine ⟨st', ?_, hok0.trans hok2 (Nat.le_refl _)⟩
+      rw [execT_push hS (st := ⟨pc, c, sv⟩) hpush]
+      simp only
+      rw [he, show pc + 1 + 1 = pc + 2 by omega, he2]
+    | some rb =>
+      obtain ⟨cb, wb⟩ := rb
+      rw [hsb] at hb
+      obtain ⟨sv2, he2, hok2, hw2, _⟩ := hb
+      refine ⟨sv2, ?_, hok0.trans hok2 (Nat.le_refl _), hw2, by simp only [addRva_eq_wadd32]; exact wadd32_lt _ _⟩
+      rw [execT_push hS (st := ⟨pc, c, sv⟩) hpush]
+      simp only
+      rw [he, show pc + 1 + 1 = pc + 2 by omega, he2, hterm cb sv2]
+      simp only [skipAmt_push, addRva_eq_wadd32]
+      rfl
+
+end Main2
+
 end Pelite.PatSem
